@@ -19,6 +19,33 @@ def world():
     return _G
 
 
+def gen_world():
+    """the same schema as plugin-generated classes (build in the parent process, before forking workers)"""
+    from . import common, genworld
+    w = world()
+    if "gen" not in w:
+        try:
+            w["gen"] = genworld.build(w["schema"])
+        except common.MachineryError as ex:
+            # whether the plugin works at all is C03's subject: the message-level checks go on with the hand-built classes
+            w["gen"] = None
+            w["gen_error"] = str(ex)[:300]
+            print("NOTE: plugin-generated classes of the Wide schema are not available (%s); continuing with the classes built through the field API" % str(ex)[:160])
+    return w["gen"]
+
+
+def classes_for(case):
+    w = world()
+    return w["gen"] if case.get("world") == "gen" and w.get("gen") else w["bp"]
+
+
+def as_generated(cases, skip=("TOneP",)):
+    """the same cases on the plugin-generated classes (none when they could not be built)"""
+    if not world().get("gen"):
+        return []
+    return [dict(c, world="gen", tag="gen:" + c.get("tag", "")) for c in cases if c["ty"] not in skip]
+
+
 def ref_classes():
     w = world()
     if w["ref"] is None:
@@ -71,10 +98,10 @@ def nontrivial(case):
 def rt_event(case):
     """C01/C09: build, encode, decode, compare, re-encode; also len / dump / delimited / SerializeToString"""
     w = world()
-    schema, C = w["schema"], w["bp"]
+    schema, C = w["schema"], classes_for(case)
     ty = case["ty"]
     ev = {"op": "rt", "ty": ty, "val": case["val"], "res": "ok", "b": [], "obs": {}, "eq": False, "b2": [],
-          "len": -1, "dump": [], "sts": [], "delim": [], "case": {"ty": ty, "tag": case.get("tag", "")}}
+          "len": -1, "dump": [], "sts": [], "delim": [], "case": {"ty": ty, "tag": case.get("tag", ""), "world": case.get("world", "dyn")}}
     try:
         m = dyn.conc_bp(schema, C, ty, case["val"])
         b = bytes(m)
